@@ -389,7 +389,14 @@ class Ref:
             all_d = []
             if any(x['form'] in ('pattern', 'pattern_all') for x in ts_inputs):
                 all_d = [self.tasks[m]['vdigest'] for m in t['inputs']]
-            t['read_targets'] = [target for (what, target), e in zip(t['explicit'], explicit) if what == 'task' and e is not None]
+            # order in which a run pulls its inputs: run arguments are evaluated before the body starts, the body reads the rest in declaration order
+            expl_specs = [x for x in ts_inputs if x['form'] not in ('pattern', 'pattern_all')]
+            order = [i for i, x in enumerate(expl_specs) if x.get('access') == 'args'] + [i for i, x in enumerate(expl_specs) if x.get('access') != 'args']
+            t['read_targets'] = []
+            for i in order:
+                (what, target), e = t['explicit'][i], explicit[i]
+                if what == 'task' and e is not None and target not in t['read_targets']:
+                    t['read_targets'].append(target)
             if all_d:
                 t['read_targets'] = list(t['inputs'])
             t['h'] = rt.descriptor_hash(t['slug'], {k: pcanon_cfg(v) for k, v in t['persisted'].items()}, explicit, all_d)
